@@ -154,3 +154,33 @@ M("C01-T1", "C01", PROJECT, "                links = module.in_links\n          
 M("C01-T2", "C01", RMODULE, "    def process_SZZZ(self, data):\n        (self.object.layer,) = unpack(\"<I\", data)", "    def process_SZZZ(self, data):\n        (self.object.layer,) = unpack(\"<i\", data)", expect="T")
 M("C01-T3", "C01", PROJECT, '        yield b"BPM ", pack("<I", self.initial_bpm)', '        fmt = "<I"\n        yield b"BPM ", pack(fmt, self.initial_bpm)', expect="T")
 M("C01-T4", "C01", RSUNVOX, "    def process_SPED(self, data):\n        (self.object.initial_tpl,) = unpack(\"<I\", data)\n\n    def process_TGRD(self, data):\n        (self.object.time_grid,) = unpack(\"<I\", data)\n\n", "    def process_TGRD(self, data):\n        (self.object.time_grid,) = unpack(\"<I\", data)\n\n    def process_SPED(self, data):\n        (self.object.initial_tpl,) = unpack(\"<I\", data)\n\n", expect="T")
+
+# ----------------------------------------------------------------------------------- C16 / C06
+SAMPLER = "src/python/rv/modules/sampler.py"
+M("C16-D7", "C16", SAMPLER, 'f.write(self.note_samples.bytes.ljust(128, b"\\0"))', "f.write(self.note_samples.bytes)", mention="smp_num", props=["C16", "C03"])
+M("C16-M1", "C16", SAMPLER, "        # $0094 uint8_t vibrato_depth;\n        self.vibrato_depth = r.uint8()\n        # $0095 uint8_t vibrato_rate;\n        self.vibrato_rate = r.uint8()", "        # $0094 uint8_t vibrato_depth;\n        self.vibrato_rate = r.uint8()\n        # $0095 uint8_t vibrato_rate;\n        self.vibrato_depth = r.uint8()", mention="vibrato")
+M("C16-M2", "C16", SAMPLER, "        self.volume_fadeout = r.uint16()", "        self.volume_fadeout = r.uint8()", mention="volume_fadeout")
+M("C16-M3", "C16", SAMPLER, "                offset = 0x14 + i * 4", "                offset = 0x10 + i * 4", mention="load_chdt")
+M("C16-M4", "C16", SAMPLER, "        w.uint8(sample.panning + 0x80)", "        w.uint8(sample.panning + 0x7F)", mention="panning")
+M("C16-M5", "C16", SAMPLER, '        yield b"CHNM", pack("<I", i * 2 + 1)\n        yield b"CHDT", f.getvalue()\n        f.close()\n        yield b"CHNM", pack("<I", i * 2 + 2)', '        yield b"CHNM", pack("<I", i * 2)\n        yield b"CHDT", f.getvalue()\n        f.close()\n        yield b"CHNM", pack("<I", i * 2 + 1)', mention="sample_chunks")
+M("C16-M6", "C16", SAMPLER, "                points.append((x, y + min_y))", "                points.append((x, y))", mention="load_chdt")
+M("C16-M7", "C16", SAMPLER, "        sample.loop_sustain = bool(loop_format_flags & 4)", "        sample.loop_sustain = bool(loop_format_flags & 8)", mention="loop_sustain")
+M("C16-M8", "C16", SAMPLER, "            self.Format.int16: 0x10,\n            self.Format.float32: 0x20,\n        }[sample.format]", "            self.Format.int16: 0x20,\n            self.Format.float32: 0x10,\n        }[sample.format]", mention="format")
+M("C16-M9", "C16", SAMPLER, "        elif chnm == 0x103:\n            self.panning_envelope.load_chdt(chdt)\n        elif chnm == 0x104:\n            self.pitch_envelope.load_chdt(chdt)", "        elif chnm == 0x103:\n            self.pitch_envelope.load_chdt(chdt)\n        elif chnm == 0x104:\n            self.panning_envelope.load_chdt(chdt)", mention="load_chunk")
+M("C16-M10", "C16", SAMPLER, "        # int8_t finetune;\n        w.int8(self.ins_finetune)", "        # int8_t finetune;\n        w.uint8(self.ins_finetune)", mention="finetune")
+M("C16-M11", "C16", SAMPLER, "                self.sustain_point,\n                self.loop_start_point,\n                self.loop_end_point,\n            )\n            data += b\"\\0\\0\\0\\0\"", "                self.loop_start_point,\n                self.sustain_point,\n                self.loop_end_point,\n            )\n            data += b\"\\0\\0\\0\\0\"", mention="Envelope")
+M("C16-M12", "C16", SAMPLER, "            return self.enable | self.sustain * 2 | self.loop * 4", "            return self.enable | self.sustain * 4 | self.loop * 2", mention="bitmask")
+M("C16-M13", "C16", SAMPLER, "        sample.channels = self.Channels(chunk.chff & 0x08)", "        sample.channels = self.Channels(chunk.chff & 0x04)", mention="CHFF")
+M("C16-M14", "C16", SAMPLER, "            for k, v in zip(self.keys(), value):", "            for k, v in zip(reversed(self.keys()), value):", mention="NoteSampleMap")
+M("C16-M15", "C16", SAMPLER, "        index = (chunk.chnm - 2) // 2\n", "        index = (chunk.chnm - 1) // 2\n", expect="T")   # (2i+2-1)//2 == i: same slot, behaviour preserved
+M("C16-M16", "C16", SAMPLER, "        # $001a uint16_t unused2;\n        self.unused2 = r.uint16()", "        # $001a uint16_t unused2;\n        self.unused2 = r.uint32()", mention="unused2")
+M("C16-M17", "C16", SAMPLER, "        self._f.write(value.ljust(width, b\"\\0\")[:width])", "        self._f.write(value.ljust(width, b\"\\0\"))", mention="char")
+M("C16-M18", "C16", SAMPLER, "            self.EffectControlEnvelope(0x105),\n            self.EffectControlEnvelope(0x106),", "            self.EffectControlEnvelope(0x106),\n            self.EffectControlEnvelope(0x105),", mention="effect")
+M("C16-T1", "C16", SAMPLER, "        # uint8_t vibrato_depth;\n        w.uint8(self.vibrato_depth)", "        # uint8_t vibrato_depth;\n        depth = self.vibrato_depth\n        w.uint8(depth)", expect="T")
+M("C06-D8", "C06", SAMPLER, "if not self.is_legacy and len(data) > 0x190:", "if not self.is_legacy and len(data) >= 0x190:", mention="load_instrument")
+M("C06-M1", "C06", "src/python/rv/modules/multisynth.py", "    def load_chunk(self, chunk):\n        if chunk.chnm == self.options_chnm:", "    def load_chunk(self, chunk):\n        self._raw = getattr(self, \"_raw\", []) + [chunk]\n        if chunk.chnm == self.options_chnm:", mention="_raw", more=[("src/python/rv/modules/multisynth.py", "    def specialized_iff_chunks(self):\n        yield from self.nv_curve.chunks()", "    def specialized_iff_chunks(self):\n        if getattr(self, \"_raw\", None):\n            for c in self._raw:\n                yield from c.chunks()\n            return\n        yield from self.nv_curve.chunks()")])
+M("C06-M2", "C06", RMODULE, "        self._load_last_chunk()\n        self.object.finalize_load()", "        self._load_last_chunk()\n        self.object._saved_header = list(self.object.iff_chunks())\n        self.object.finalize_load()", mention="_saved_header", more=[(MODULE, "        if in_project is None:\n            in_project = self.parent is not None\n", "        if in_project is None:\n            in_project = self.parent is not None\n        if getattr(self, \"_saved_header\", None):\n            yield from self._saved_header\n            return\n")])
+M("C06-M3", "C06", SAMPLER, "        if sign != self.INS_SIGN:", "        if sign == self.INS_SIGN:", mention="INS_SIGN")
+M("C06-M4", "C06", SAMPLER, "        if self.is_legacy:\n            for chunk in self.legacy_chunks:", "        if self.legacy_chunks:\n            for chunk in self.legacy_chunks:", mention="specialized_iff_chunks")
+M("C06-M5", "C06", SAMPLER, "        if not self.is_legacy:\n            self.is_legacy = False\n            self.legacy_chunks = None", "        if not self.is_legacy:\n            self.is_legacy = True", mention="load_instrument")
+M("C06-T1", "C06", SAMPLER, "if not self.is_legacy and len(data) > 0x190:", "if not self.is_legacy and len(data) >= 0x191:", expect="T")
